@@ -11,7 +11,9 @@
    Model assumptions (recorded in the evidence): no allocation failure; the selected read format has
    read_data and read_data_skip; no archive_read_append_filter (bypass_filter_bidding = 0); fewer than
    25 read filters; the write format, once set, has write_header/write_data/finish_entry/close/free
-   (and, in the scripted harness, init); skip_file is not set on the writer. *)
+   (and, in the scripted harness, init); skip_file is not set on the writer; the disk writer holds an
+   open file only after a header call that returned WARN or better (restore_entry leaves no descriptor
+   open when it fails, the chdir-back failure path is not modelled). *)
 From Coq Require Import List ZArith NArith Bool String Ascii.
 From LA Require Import Gen.Defines.
 Import ListNotations.
@@ -64,22 +66,24 @@ Record handle := mkH {
   hstate : N;          (* archive.state *)
   rd : rdata;
   wr : wdata;
-  fixups : N           (* archive_write_disk: fix-up entries not yet applied and released *)
+  fixups : N;          (* archive_write_disk: fix-up entries not yet applied and released *)
+  dw_fd : bool         (* archive_write_disk: the file being restored is open (a->fd >= 0) *)
 }.
 
-Definition set_state (h : handle) (s : N) := mkH (hmagic h) s (rd h) (wr h) (fixups h).
-Definition set_rd (h : handle) (r : rdata) := mkH (hmagic h) (hstate h) r (wr h) (fixups h).
-Definition set_wr (h : handle) (w : wdata) := mkH (hmagic h) (hstate h) (rd h) w (fixups h).
-Definition set_fixups (h : handle) (n : N) := mkH (hmagic h) (hstate h) (rd h) (wr h) n.
-Definition kill (h : handle) := mkH 0%N (hstate h) (rd h) (wr h) (fixups h).   (* a->archive.magic = 0; free(a) *)
+Definition set_state (h : handle) (s : N) := mkH (hmagic h) s (rd h) (wr h) (fixups h) (dw_fd h).
+Definition set_rd (h : handle) (r : rdata) := mkH (hmagic h) (hstate h) r (wr h) (fixups h) (dw_fd h).
+Definition set_wr (h : handle) (w : wdata) := mkH (hmagic h) (hstate h) (rd h) w (fixups h) (dw_fd h).
+Definition set_fixups (h : handle) (n : N) := mkH (hmagic h) (hstate h) (rd h) (wr h) n (dw_fd h).
+Definition set_fd (h : handle) (b : bool) := mkH (hmagic h) (hstate h) (rd h) (wr h) (fixups h) b.
+Definition kill (h : handle) := mkH 0%N (hstate h) (rd h) (wr h) (fixups h) (dw_fd h).   (* a->archive.magic = 0; free(a) *)
 
 Definition rd0 := mkR false 0 0 0 0 0 0.
 Definition wr0 := mkW false 0 0 0 0.
-Definition new_read := mkH ARCHIVE_READ_MAGIC ARCHIVE_STATE_NEW rd0 wr0 0.
-Definition new_write := mkH ARCHIVE_WRITE_MAGIC ARCHIVE_STATE_NEW rd0 wr0 0.
-Definition new_read_disk := mkH ARCHIVE_READ_DISK_MAGIC ARCHIVE_STATE_NEW rd0 wr0 0.
-Definition new_write_disk := mkH ARCHIVE_WRITE_DISK_MAGIC ARCHIVE_STATE_HEADER rd0 wr0 0.
-Definition new_match := mkH ARCHIVE_MATCH_MAGIC ARCHIVE_STATE_NEW rd0 wr0 0.
+Definition new_read := mkH ARCHIVE_READ_MAGIC ARCHIVE_STATE_NEW rd0 wr0 0 false.
+Definition new_write := mkH ARCHIVE_WRITE_MAGIC ARCHIVE_STATE_NEW rd0 wr0 0 false.
+Definition new_read_disk := mkH ARCHIVE_READ_DISK_MAGIC ARCHIVE_STATE_NEW rd0 wr0 0 false.
+Definition new_write_disk := mkH ARCHIVE_WRITE_DISK_MAGIC ARCHIVE_STATE_HEADER rd0 wr0 0 false.
+Definition new_match := mkH ARCHIVE_MATCH_MAGIC ARCHIVE_STATE_NEW rd0 wr0 0 false.
 
 Inductive result := RAbort | RNoSite | RRet (status : Z) (h : handle).
 
@@ -112,10 +116,13 @@ Definition op_fail (h : handle) : result := RRet (Z.of_N ARCHIVE_STATE_FATAL) (s
 
 Definition ignore_status (r : result) (k : handle -> result) : result :=
   match r with RRet _ h => k h | other => other end.
-(* archive_{read,write}_disk_set_standard_lookup: the two setters are checked, their results are dropped *)
+(* archive_{read,write}_disk_set_standard_lookup: the two setters are checked; a refusal of either
+   one ends the call with FATAL (the caches are released) *)
 Definition op_pair t f1 f2 magic h : result :=
-  ignore_status (op_query t f1 magic h ARCHIVE_OK) (fun h =>
-  ignore_status (op_query t f2 magic h ARCHIVE_OK) (fun h => RRet ARCHIVE_OK h)).
+  bind (op_query t f1 magic h ARCHIVE_OK) (fun s1 h =>
+    if negb (s1 =? ARCHIVE_OK) then RRet ARCHIVE_FATAL h
+    else bind (op_query t f2 magic h ARCHIVE_OK) (fun s2 h =>
+      if negb (s2 =? ARCHIVE_OK) then RRet ARCHIVE_FATAL h else RRet ARCHIVE_OK h)).
 
 (* ------------------------------------------------------------------ archive_read *)
 Definition RM := ARCHIVE_READ_MAGIC.
@@ -157,15 +164,16 @@ Definition rd_open1 t h (opener_r filt_r : Z) (fmt_ok : bool) : result :=
           RRet ARCHIVE_FATAL (set_state (snd (rd_close_filters h1 ARCHIVE_OK)) ARCHIVE_STATE_FATAL)
         else RRet filt_r (set_state h1 ARCHIVE_STATE_HEADER)).
 
-(* archive_read_open_memory2: six setters whose results are ignored, then archive_read_open1 *)
+(* archive_read_open_memory2: five setters whose results are ignored, set_callback_data whose refusal
+   ends the call with FATAL (the bookkeeping block is released), then archive_read_open1 *)
 Definition rd_open_memory t h opener_r filt_r fmt_ok : result :=
   ignore_status (op_query t "archive_read_set_open_callback" RM h ARCHIVE_OK) (fun h =>
   ignore_status (rd_set_read_cb t h) (fun h =>
   ignore_status (op_query t "archive_read_set_seek_callback" RM h ARCHIVE_OK) (fun h =>
   ignore_status (op_query t "archive_read_set_skip_callback" RM h ARCHIVE_OK) (fun h =>
   ignore_status (op_query t "archive_read_set_close_callback" RM h ARCHIVE_OK) (fun h =>
-  ignore_status (op_query t "archive_read_set_callback_data2" RM h ARCHIVE_OK) (fun h =>
-  rd_open1 t h opener_r filt_r fmt_ok)))))).
+  bind (op_query t "archive_read_set_callback_data2" RM h ARCHIVE_OK) (fun s h =>
+  if negb (s =? ARCHIVE_OK) then RRet ARCHIVE_FATAL h else rd_open1 t h opener_r filt_r fmt_ok)))))).
 
 Definition rd_data_skip t h (r : Z) : result :=
   with_check t "archive_read_data_skip" RM h (fun h =>
@@ -237,8 +245,13 @@ Fixpoint rd_read_data_loop (fuel : nat) t magic (h : handle) (s got : Z) (blocks
       else let '(h2, s2, g2) := rd_pad_copy h s got in rd_read_data_loop k t magic h2 s2 g2 blocks
   end.
 
+(* a block left over from an earlier call is forgotten unless the handle is in state DATA *)
+Definition rd_forget_stale (h : handle) : handle :=
+  if (hstate h =? ARCHIVE_STATE_DATA)%N then h
+  else let d := rd h in set_rd h (mkR (r_reader d) (r_filter d) (r_opens d) (r_closes d) 0 (r_out d) (r_out d)).
+
 Definition rd_read_data t magic h (s : Z) (blocks : list (Z * Z * Z)) : result :=
-  rd_read_data_loop (2 * List.length blocks + 8) t magic h s 0 blocks.
+  rd_read_data_loop (2 * List.length blocks + 8) t magic (rd_forget_stale h) s 0 blocks.
 
 (* archive_read_data on a real backend: reach = the call gets to archive_read_data_block *)
 Definition rd_read_data_obs t magic h (reach : bool) (r : Z) : result :=
@@ -280,6 +293,10 @@ Definition wr_open t h (opener_r init_r : Z) : result :=
       let ok := opener_r =? ARCHIVE_OK in
       let w1 := mkW (w_fmt w) (if ok then 1 else 3) (if ok then w_opens w + 1 else w_opens w)%N (w_closes w) (w_frees w) in
       RRet (if w_fmt w then init_r else opener_r) (set_state (set_wr h w1) ARCHIVE_STATE_HEADER)).
+
+(* archive_write_open_memory: its own check (the bookkeeping block is allocated after it), then open2 *)
+Definition wr_open_memory t h (opener_r init_r : Z) : result :=
+  with_check t "archive_write_open_memory" WM h (fun h => wr_open t h opener_r init_r).
 
 Definition wr_finish_entry t h (fe_r : Z) : result :=
   with_check t "_archive_write_finish_entry" WM h (fun h =>
@@ -333,7 +350,9 @@ Definition wr_free t h (fe_r fc_r cl_r ff_r : Z) : result :=
       RRet (if w_fmt (wr h) then zlower ff_r r else r) (kill (wr_filters_free h)) in
     if negb (hstate h =? ARCHIVE_STATE_FATAL)%N
     then bind (wr_close t h fe_r fc_r cl_r) fin
-    else fin ARCHIVE_OK h).
+    else
+      (* a failed writer is not finished, but its filters are closed; the worst status is kept *)
+      let '(r1, h1) := wr_filters_close h cl_r in fin (zlower r1 ARCHIVE_OK) h1).
 
 (* ------------------------------------------------------------------ archive_read_disk *)
 Definition RDM := ARCHIVE_READ_DISK_MAGIC.
@@ -369,38 +388,46 @@ Definition dr_free t h : result :=
 (* ------------------------------------------------------------------ archive_write_disk *)
 Definition WDM := ARCHIVE_WRITE_DISK_MAGIC.
 
-Definition dw_finish_entry t h (r : Z) : result :=
+(* early = one of the error returns in the middle (ftruncate/lseek/write/stat failed): the file is
+   closed, the entry stays current (state DATA) *)
+Definition dw_finish_entry t h (r : Z) (early : bool) : result :=
   with_check t "_archive_write_disk_finish_entry" WDM h (fun h =>
     if has_bit (hstate h) ARCHIVE_STATE_HEADER then RRet ARCHIVE_OK h
-    else RRet r (set_state h ARCHIVE_STATE_HEADER)).
+    else if early then RRet r (set_fd h false)
+    else RRet r (set_state (set_fd h false) ARCHIVE_STATE_HEADER)).
 
-(* early = the function returns before its last statement (cleanup_pathname / self hard link /
-   check_symlinks); newfix = a fix-up entry is queued for this entry *)
-Definition dw_header t h (fin_r : Z) (early : bool) (ret : Z) (newfix : bool) : result :=
+(* early = the function returns before restore_entry (cleanup_pathname / self hard link /
+   check_symlinks); newfix = a fix-up entry is queued; opens_fd = the restored object is a file that
+   stays open for its data *)
+Definition dw_header t h (fin_r : Z) (fin_early : bool) (early : bool) (ret : Z) (newfix opens_fd : bool) : result :=
   with_check t "_archive_write_disk_header" WDM h (fun h =>
     let body (h1 : handle) : result :=
+      let h1 := set_fd h1 false in                      (* a->fd = -1 *)
       if early then RRet ret h1
       else
         let h2 := if newfix then set_fixups h1 (fixups h1 + 1) else h1 in
-        RRet ret (if ARCHIVE_WARN <=? ret then set_state h2 ARCHIVE_STATE_DATA else h2) in
+        RRet ret (if ARCHIVE_WARN <=? ret then set_state (set_fd h2 opens_fd) ARCHIVE_STATE_DATA else h2) in
     if has_bit (hstate h) ARCHIVE_STATE_DATA then
-      bind (dw_finish_entry t h fin_r) (fun r h1 => if r =? ARCHIVE_FATAL then RRet r h1 else body h1)
+      bind (dw_finish_entry t h fin_r fin_early) (fun r h1 => if r =? ARCHIVE_FATAL then RRet r h1 else body h1)
     else body h).
 
 Definition dw_data t h (r : Z) : result := with_check t "_archive_write_disk_data" WDM h (fun h => RRet r h).
 Definition dw_data_block t h (r : Z) : result :=
   with_check t "_archive_write_disk_data_block" WDM h (fun h => RRet r h).
 
-(* the fix-up list is applied and released only here *)
-Definition dw_close t h (fin_r : Z) : result :=
+(* the fix-up list is applied and released here *)
+Definition dw_close t h (fin_r : Z) (fin_early : bool) : result :=
   with_check t "_archive_write_disk_close" WDM h (fun h =>
-    bind (dw_finish_entry t h fin_r) (fun ret h1 => RRet ret (set_fixups h1 0))).
+    bind (dw_finish_entry t h fin_r fin_early) (fun ret h1 => RRet ret (set_fixups h1 0))).
 
-(* _archive_write_disk_free: ret = _archive_write_disk_close(a) (its own check included); then the
-   object is released whatever close said *)
-Definition dw_free t h (fin_r : Z) : result :=
+(* _archive_write_disk_free: ret = _archive_write_disk_close(a) (its own check included); a failed
+   handle is refused by close, so free itself drops the open file and the fix-ups; then the object is
+   released whatever close said *)
+Definition dw_free t h (fin_r : Z) (fin_early : bool) : result :=
   with_check t "_archive_write_disk_free" WDM h (fun h =>
-    bind (dw_close t h fin_r) (fun ret h1 => RRet ret (kill h1))).
+    bind (dw_close t h fin_r fin_early) (fun ret h1 =>
+      let h2 := if (hstate h1 =? ARCHIVE_STATE_FATAL)%N then set_fixups (set_fd h1 false) 0 else h1 in
+      RRet ret (kill h2))).
 
 (* ------------------------------------------------------------------ archive_match *)
 Definition m_free t h : result :=
@@ -425,6 +452,7 @@ Inductive op :=
 | RFree (rc : Z)
 | WSetFormat (f : string) (r : Z)
 | WOpen (opener_r init_r : Z)
+| WOpenMem (opener_r init_r : Z)
 | WHeader (fe_r flush_r wh_r : Z)
 | WData (r : Z)
 | WFinishEntry (fe_r : Z)
@@ -435,12 +463,12 @@ Inductive op :=
 | DRDataBlock (r : Z)
 | DRClose
 | DRFree
-| DWHeader (fin_r : Z) (early : bool) (ret : Z) (newfix : bool)
+| DWHeader (fin_r : Z) (fin_early : bool) (early : bool) (ret : Z) (newfix opens_fd : bool)
 | DWData (r : Z)
 | DWDataBlock (r : Z)
-| DWFinishEntry (r : Z)
-| DWClose (fin_r : Z)
-| DWFree (fin_r : Z)
+| DWFinishEntry (r : Z) (early : bool)
+| DWClose (fin_r : Z) (fin_early : bool)
+| DWFree (fin_r : Z) (fin_early : bool)
 | MFree.
 
 Definition step (t : list site) (h : handle) (o : op) : result :=
@@ -462,6 +490,7 @@ Definition step (t : list site) (h : handle) (o : op) : result :=
   | RFree rc => rd_free t h rc
   | WSetFormat f r => wr_set_format t f h r
   | WOpen a b => wr_open t h a b
+  | WOpenMem a b => wr_open_memory t h a b
   | WHeader a b c => wr_header t h a b c
   | WData r => wr_data t h r
   | WFinishEntry r => wr_finish_entry t h r
@@ -472,12 +501,12 @@ Definition step (t : list site) (h : handle) (o : op) : result :=
   | DRDataBlock r => dr_data_block t h r
   | DRClose => dr_close t h
   | DRFree => dr_free t h
-  | DWHeader a b c d => dw_header t h a b c d
+  | DWHeader a b c d e f => dw_header t h a b c d e f
   | DWData r => dw_data t h r
   | DWDataBlock r => dw_data_block t h r
-  | DWFinishEntry r => dw_finish_entry t h r
-  | DWClose r => dw_close t h r
-  | DWFree r => dw_free t h r
+  | DWFinishEntry r e => dw_finish_entry t h r e
+  | DWClose r e => dw_close t h r e
+  | DWFree r e => dw_free t h r e
   | MFree => m_free t h
   end.
 
@@ -500,6 +529,7 @@ Definition entry_site (o : op) : option (string * N) :=
   | RFree _ => Some ("_archive_read_free", RM)
   | WSetFormat f _ => Some (f, WM)
   | WOpen _ _ => Some ("archive_write_open2", WM)
+  | WOpenMem _ _ => Some ("archive_write_open_memory", WM)
   | WHeader _ _ _ => Some ("_archive_write_header", WM)
   | WData _ => Some ("_archive_write_data", WM)
   | WFinishEntry _ => Some ("_archive_write_finish_entry", WM)
@@ -510,12 +540,12 @@ Definition entry_site (o : op) : option (string * N) :=
   | DRDataBlock _ => Some ("_archive_read_data_block", RDM)
   | DRClose => Some ("_archive_read_close", RDM)
   | DRFree => Some ("_archive_read_free", RDM)
-  | DWHeader _ _ _ _ => Some ("_archive_write_disk_header", WDM)
+  | DWHeader _ _ _ _ _ _ => Some ("_archive_write_disk_header", WDM)
   | DWData _ => Some ("_archive_write_disk_data", WDM)
   | DWDataBlock _ => Some ("_archive_write_disk_data_block", WDM)
-  | DWFinishEntry _ => Some ("_archive_write_disk_finish_entry", WDM)
-  | DWClose _ => Some ("_archive_write_disk_close", WDM)
-  | DWFree _ => Some ("_archive_write_disk_free", WDM)
+  | DWFinishEntry _ _ => Some ("_archive_write_disk_finish_entry", WDM)
+  | DWClose _ _ => Some ("_archive_write_disk_close", WDM)
+  | DWFree _ _ => Some ("_archive_write_disk_free", WDM)
   | MFree => Some ("archive_match_free", ARCHIVE_MATCH_MAGIC)
   end.
 
@@ -570,6 +600,10 @@ Definition refuses_sticky (t : list site) (f : string) : bool :=
 Definition reader_sites_ok (t : list site) : bool :=
   refuses_sticky t "archive_read_open1" && refuses_sticky t "_archive_read_next_header2" &&
   refuses_sticky t "archive_read_data_skip".
+
+(* archive_write_open2 is accepted in state NEW only *)
+Definition wopen_only_new (t : list site) : bool :=
+  match site_mask t "archive_write_open2" WM with Some mask => (mask =? ARCHIVE_STATE_NEW)%N | None => true end.
 
 Definition close_free_sites : list (string * N) :=
   [ ("_archive_read_close", RM); ("_archive_read_free", RM);
